@@ -3,6 +3,7 @@ module kvqlsim
 go 1.21.1
 
 require (
+	github.com/anishathalye/porcupine v1.3.0
 	github.com/beorn7/perks v1.0.1
 	github.com/c4pt0r/kvql v0.0.0
 )
